@@ -114,20 +114,7 @@ def class_predicate_apply(fn):
     return apply
 
 
-@contract
-class IsStructSequenceClassC(Contract):
-    name = 'IsStructSequenceClass'
-    this_is_spec = False
-    external_summary = True
-    apply = class_predicate_apply(is_structseq_class)
-
-
-@contract
-class IsNamedTupleClassC(Contract):
-    name = 'IsNamedTupleClass'
-    this_is_spec = False
-    external_summary = True
-    apply = class_predicate_apply(is_namedtuple_class)
+# the contracts of IsNamedTupleClass / IsStructSequenceClass (cached class predicates) live in predcache.py
 
 
 @contract
